@@ -109,28 +109,14 @@ theorem hashGroupEnd_isSome (cs : Str) :
   · rintro ⟨g, hg⟩; exact ((hashGroupEnd_eq_some cs g).mp hg).2
   · intro h; exact ⟨cs, (hashGroupEnd_eq_some cs cs).mpr ⟨rfl, h⟩⟩
 
-theorem all_reB32_noFold (cs : Str) (h : NoFold cs = true) :
-    cs.all reB32 = cs.all isB32Ascii := by
-  induction cs with
-  | nil => rfl
-  | cons c cs ih =>
-    simp only [NoFold, List.all_cons, Bool.and_eq_true, Bool.not_eq_true'] at h
-    have ih' := ih (by simpa [NoFold] using h.2)
-    simp only [List.all_cons, ih', reB32, h.1, Bool.or_false]
-
-theorem NoFold_drop (cs : Str) (n : Nat) (h : NoFold cs = true) : NoFold (cs.drop n) = true := by
-  simp only [NoFold, List.all_eq_true] at h ⊢
-  intro c hc; exact h c (List.mem_of_mem_drop hc)
-
-theorem infohashRe_isSome_noFold (v : Str) (h : NoFold v = true) :
-    (infohashRe v).isSome = validHash v := by
-  rw [Bool.eq_iff_iff, infohashRe, hashGroupEnd_isSome, all_reB32_noFold v h]
-  simp [validHash, Hex40, B32x32, reHex]
+theorem infohashRe_isSome (v : Str) : (infohashRe v).isSome = validHash v := by
+  rw [Bool.eq_iff_iff, infohashRe, hashGroupEnd_isSome]
+  simp [validHash, Hex40, B32x32, reHex, reB32]
 
 theorem infohashRe_eq_some (v g : Str) (h : infohashRe v = some g) : g = v :=
   ((hashGroupEnd_eq_some v g).mp h).1
 
-theorem litI_noFold (ps cs rest : Str) (h : NoFold cs = true) :
+theorem litI_eq_some (ps cs rest : Str) :
     litI ps cs = some rest ↔ (cs.take ps.length).map asciiLower = ps ∧ rest = cs.drop ps.length := by
   induction ps generalizing cs with
   | nil => simp [litI, eq_comm]
@@ -138,32 +124,30 @@ theorem litI_noFold (ps cs rest : Str) (h : NoFold cs = true) :
     cases cs with
     | nil => simp [litI]
     | cons c cs =>
-      simp only [NoFold, List.all_cons, Bool.and_eq_true, Bool.not_eq_true'] at h
-      have hf : foldsTo c = none := by simpa [isFold] using h.1
-      simp only [litI, reLit, hf, List.length_cons, List.take_succ_cons, List.map_cons,
+      simp only [litI, reLit, List.length_cons, List.take_succ_cons, List.map_cons,
         List.cons.injEq, List.drop_succ_cons]
       by_cases hc : asciiLower c = p
-      · simp [hc, ih cs (by simpa [NoFold] using h.2)]
+      · simp [hc, ih cs]
       · simp [hc]
 
-theorem xtRe_noFold (v g : Str) (h : NoFold v = true) :
+theorem xtRe_eq_some (v g : Str) :
     xtRe v = some g ↔ hasUrn v = true ∧ validHash (v.drop 9) = true ∧ g = v.drop 9 := by
   unfold xtRe
   cases hl : litI urnPrefix v with
   | none =>
     have : ¬ hasUrn v = true := by
       intro hu
-      have := (litI_noFold urnPrefix v (v.drop 9) h).mpr ⟨by rw [urnPrefix_length]; simpa [hasUrn] using hu, by rw [urnPrefix_length]⟩
+      have := (litI_eq_some urnPrefix v (v.drop 9)).mpr ⟨by rw [urnPrefix_length]; simpa [hasUrn] using hu, by rw [urnPrefix_length]⟩
       rw [hl] at this; cases this
     simp [this]
   | some rest =>
-    have := (litI_noFold urnPrefix v rest h).mp hl
+    have := (litI_eq_some urnPrefix v rest).mp hl
     rw [urnPrefix_length] at this
     have hr : rest = v.drop 9 := this.2
     have hu : hasUrn v = true := by simpa [hasUrn] using this.1
     subst hr
     simp only [hu, true_and]
-    have hs := infohashRe_isSome_noFold (v.drop 9) (NoFold_drop v 9 h)
+    have hs := infohashRe_isSome (v.drop 9)
     unfold infohashRe at hs
     constructor
     · intro x
@@ -449,16 +433,20 @@ theorem mapM_some_of_forall {α β : Type} (f : α → Option β) (g : α → β
 
 theorem hexVal_hexDigitLower : ∀ d : Fin 16, hexValD (hexDigitLower d.val) = d.val := by decide
 
+theorem mkUrl_eq (isUrl : Str → Bool) (v : Str) :
+    mkUrl isUrl v = if urlAccepts isUrl v then .ok (plusForSpace v) else .error .url := by
+  unfold mkUrl urlAccepts
+  cases isUrl v <;> cases isUrl (plusForSpace v) <;> rfl
+
 theorem mapM_mkUrl (isUrl : Str → Bool) (vs : List Str) :
     vs.mapM (mkUrl isUrl) =
-      if vs.all isUrl then .ok (vs.map plusForSpace) else .error .url := by
+      if vs.all (urlAccepts isUrl) then .ok (vs.map plusForSpace) else .error .url := by
   induction vs with
   | nil => rfl
   | cons v t ih =>
-    rw [List.mapM_cons, ih]
-    unfold mkUrl
-    by_cases h1 : isUrl v = true
-    · by_cases h2 : t.all isUrl = true
+    rw [List.mapM_cons, ih, mkUrl_eq]
+    by_cases h1 : urlAccepts isUrl v = true
+    · by_cases h2 : t.all (urlAccepts isUrl) = true
       · simp [h1, h2]; rfl
       · simp [h1, h2]; rfl
     · simp [h1]; rfl
@@ -518,17 +506,189 @@ theorem plusForSpace_idem (s : Str) : plusForSpace (plusForSpace s) = plusForSpa
   intro c _
   by_cases h : c = ' ' <;> simp [h]
 
+/-- a coerced item passes the second coercion (inside `insert`) unchanged -/
+theorem mkUrl_coerced (isUrl : Str → Bool) (v : Str) (h : urlAccepts isUrl v = true) :
+    mkUrl isUrl (plusForSpace v) = .ok (plusForSpace v) := by
+  simp only [urlAccepts, Bool.and_eq_true] at h
+  simp [mkUrl_eq, urlAccepts, plusForSpace_idem, h.2]
+
 theorem insertAll_stable (isUrl : Str → Bool) (acc us : List Str)
-    (h : ∀ u ∈ us, isUrl u = true ∧ plusForSpace u = u) :
+    (h : ∀ u ∈ us, mkUrl isUrl u = .ok u) :
     insertAll isUrl acc us = (none, dedup acc us) := by
   induction us generalizing acc with
   | nil => rfl
   | cons u t ih =>
-    obtain ⟨h1, h2⟩ := h u (by simp)
+    have h1 := h u (by simp)
     have ht := fun x hx => h x (List.mem_cons_of_mem _ hx)
-    simp only [insertAll, mkUrl, h1, if_true, h2, dedup]
+    simp only [insertAll, h1, dedup]
     by_cases hm : u ∈ acc
     · simp only [hm, if_true]; exact ih acc ht
     · simp only [hm, if_false]; exact ih _ ht
+
+theorem mem_filter_ne {u x : Str} {l : List Str} : x ∈ l.filter (· ≠ u) ↔ x ∈ l ∧ x ≠ u := by
+  simp [List.mem_filter]
+
+/-- the accumulating loop of `extend` keeps every item at its first occurrence -/
+theorem dedup_eq_keepFirst (acc us : List Str) :
+    dedup acc us = acc ++ (keepFirst us).filter (fun u => decide (u ∉ acc)) := by
+  induction us generalizing acc with
+  | nil => simp [dedup, keepFirst]
+  | cons u t ih =>
+    unfold dedup keepFirst
+    by_cases hu : u ∈ acc
+    · rw [if_pos hu, ih acc, List.filter_cons_of_neg (by simpa using hu), List.filter_filter]
+      congr 1
+      apply List.filter_congr
+      intro x _
+      by_cases hx : x ∈ acc
+      · simp [hx]
+      · have : x ≠ u := fun e => hx (e ▸ hu)
+        simp [hx, this]
+    · rw [if_neg hu, ih (acc ++ [u]), List.filter_cons_of_pos (by simpa using hu), List.filter_filter,
+        List.append_assoc, List.singleton_append]
+      congr 2
+      apply List.filter_congr
+      intro x _
+      simp only [List.mem_append, List.mem_cons, List.not_mem_nil, or_false, not_or]
+      by_cases hx : x ∈ acc <;> by_cases hxu : x = u <;> simp [hx, hxu]
+
+theorem dedup_nil (us : List Str) : dedup [] us = keepFirst us := by
+  rw [dedup_eq_keepFirst]; simp
+
+theorem keepFirst_nodup (us : List Str) : (keepFirst us).Nodup := by
+  induction us with
+  | nil => simp [keepFirst]
+  | cons u t ih =>
+    unfold keepFirst
+    rw [List.nodup_cons]
+    exact ⟨by simp [List.mem_filter], ih.filter _⟩
+
+theorem mem_keepFirst (us : List Str) (x : Str) : x ∈ keepFirst us ↔ x ∈ us := by
+  induction us with
+  | nil => simp [keepFirst]
+  | cons u t ih =>
+    unfold keepFirst
+    simp only [List.mem_cons, List.mem_filter, ih]
+    by_cases hxu : x = u <;> simp [hxu]
+
+/-! ### the object with adopted metadata -/
+
+/-- the hash part of an assignment does not depend on the adopted metadata, and the metadata is
+    dropped exactly when an accepted assignment stores another string -/
+theorem stepM_eq (st : MState) (op : HashOp) :
+    stepM st op = ((stepHash st.hash op).1,
+      { hash := (stepHash st.hash op).2,
+        info := if (stepHash st.hash op).1 = none ∧ (stepHash st.hash op).2 ≠ st.hash then none else st.info }) := by
+  cases st with
+  | mk hash info =>
+  cases op with
+  | xt v =>
+    have key : ∀ x y : Option Str,
+        (match x with
+          | some _ => ((none : Option MErr), setInfohashAttr ⟨hash, info⟩ v)
+          | none => match y with
+            | some g => (none, setInfohashAttr ⟨hash, info⟩ g)
+            | none => (some .magnet, ⟨hash, info⟩)) =
+        (let r : Option MErr × HState := (match x with
+          | some _ => (none, some v)
+          | none => match y with
+            | some g => (none, some g)
+            | none => (some .magnet, hash))
+         (r.1, { hash := r.2, info := if r.1 = none ∧ r.2 ≠ hash then none else info })) := by
+      intro x y
+      cases x with
+      | some g => by_cases h : hash = some v <;> simp [setInfohashAttr, h, eq_comm]
+      | none =>
+        cases y with
+        | some g => by_cases h : hash = some g <;> simp [setInfohashAttr, h, eq_comm]
+        | none => simp
+    exact key (infohashRe v) (xtRe v)
+  | infohash v =>
+    have key : ∀ x : Option Str,
+        (match x with
+          | some _ => ((none : Option MErr), setInfohashAttr ⟨hash, info⟩ v)
+          | none => (some .magnet, ⟨hash, info⟩)) =
+        (let r : Option MErr × HState := (match x with
+          | some _ => (none, some v)
+          | none => (some .magnet, hash))
+         (r.1, { hash := r.2, info := if r.1 = none ∧ r.2 ≠ hash then none else info })) := by
+      intro x
+      cases x with
+      | some g => by_cases h : hash = some v <;> simp [setInfohashAttr, h, eq_comm]
+      | none => simp
+    exact key (infohashRe v)
+
+/-- on an object without metadata the loop of `get_info` is the function `getInfo` -/
+theorem fetchLoop_none (validate : Bool) (ih : Str) (srcs : List Served) (k : Nat) :
+    fetchLoop validate ih none srcs k =
+      (match getInfo validate ih srcs k with
+       | .raised e n => (some e, none, n)
+       | .adopted h n => (none, some h, n)
+       | .nothing n => (none, none, n)) := by
+  induction srcs generalizing k with
+  | nil => rfl
+  | cons s rest ihr =>
+    cases s with
+    | connError => simp only [fetchLoop, setInfoFrom, getInfo, Option.isSome_none, Bool.false_eq_true, if_false, ihr]
+    | unreadable => simp only [fetchLoop, setInfoFrom, getInfo, Option.isSome_none, Bool.false_eq_true, if_false, ihr]
+    | torrent h ne =>
+      simp only [fetchLoop, setInfoFrom, getInfo]
+      cases validate with
+      | false =>
+        cases ne with
+        | true => simp
+        | false => simp [ihr]
+      | true =>
+        simp only [if_true]
+        cases infohashAsBase16 ih with
+        | error e => simp
+        | ok own =>
+          by_cases e : own = h
+          · cases ne with
+            | true => simp [e]
+            | false => simp [e, ihr]
+          · simp [e]
+
+/-- with validation, on an object whose metadata (if any) denotes its hash, the loop of `get_info`
+    does what `specFetch` says -/
+theorem fetchLoop_spec (s own : Str) (hown : infohashAsBase16 s = .ok own) (info : Option Str)
+    (hinfo : ∀ a, info = some a → a = own) (srcs : List Served) (k : Nat) :
+    fetchLoop true s info srcs k =
+      ((specFetch own info.isSome srcs k).1,
+       (if (specFetch own info.isSome srcs k).2.1 then some own else none),
+       (specFetch own info.isSome srcs k).2.2) := by
+  cases info with
+  | some a =>
+    obtain rfl := hinfo a rfl
+    cases srcs with
+    | nil => rfl
+    | cons x rest =>
+      cases x with
+      | connError => simp [fetchLoop, setInfoFrom, specFetch]
+      | unreadable => simp [fetchLoop, setInfoFrom, specFetch]
+      | torrent h ne =>
+        simp only [fetchLoop, setInfoFrom, specFetch, hown, if_true]
+        by_cases e : a = h
+        · subst e; cases ne <;> simp
+        · have e' : ¬ h = a := fun x => e x.symm
+          simp [e, e']
+  | none =>
+    induction srcs generalizing k with
+    | nil => rfl
+    | cons x rest ihr =>
+      cases x with
+      | connError => simp only [fetchLoop, setInfoFrom, specFetch, Option.isSome_none, Bool.false_eq_true, if_false]; exact ihr _
+      | unreadable => simp only [fetchLoop, setInfoFrom, specFetch, Option.isSome_none, Bool.false_eq_true, if_false]; exact ihr _
+      | torrent h ne =>
+        simp only [fetchLoop, setInfoFrom, specFetch, hown, if_true]
+        by_cases e : own = h
+        · subst e
+          cases ne with
+          | true => simp
+          | false =>
+            simp only [ne_eq, not_true_eq_false, if_false, Option.isSome_none, Bool.false_eq_true, Bool.or_self]
+            exact ihr _
+        · have e' : ¬ h = own := fun x => e x.symm
+          simp [e, e']
 
 end Torf.Magnet
